@@ -37,7 +37,7 @@ let stats_steps = ref 0 and stats_checks = ref 0 and stats_undecided = ref 0 and
 let cov : (string, int) Hashtbl.t = Hashtbl.create 64
 let bump k = Hashtbl.replace cov k (1 + try Hashtbl.find cov k with Not_found -> 0)
 
-(* time budget per verified call: exhausting it makes the check UNDECIDED, never a verdict *)
+(* time budget per verified call: exhausting it makes the check UNDECIDED, !hur a verdict *)
 exception Timeout
 let budget = ref (try float_of_string (Sys.getenv "VERIF_JUDGE_BUDGET") with _ -> 6.0)
 let timeouts = ref 0
@@ -66,7 +66,9 @@ let get id = try Hashtbl.find pool id with Not_found -> raise (Syntax "unknown o
 let nb o = nat (o.dim + 1)
 let ent n = p_entails n and bot n = p_bottom n and top n = p_top n
 let ub d n = p_ub (nat d) n and ube d n = p_ube (nat d) n
-let omega o = { o with s = omega_reduce (ent (nb o)) (bot (nb o)) (ub o.dim (nb o)) never o.s }
+(* the schedule of abandon_expensive_computations during the current step: null (never) or raised for the whole call (always) *)
+let hur : (nat -> bool) ref = ref never
+let omega o = { o with s = omega_reduce (ent (nb o)) (bot (nb o)) (ub o.dim (nb o)) !hur o.s }
 let systems (s : pd ps) = List.map fst s.seq0
 let mk l r = { seq0 = l; reduced = r }
 let universe_pd dim : pd = (empty_sys, Some (List.init dim (fun i -> { gk = GLine; gcoefs = List.init dim (fun j -> if i = j then Zpos XH else Z0); gdiv = Zpos XH })
@@ -186,18 +188,20 @@ let ref_op c : (int * obj) list * (unit -> (string * verdict) list) =
   | "assign" -> let y = get (nexti c) in [ id, { y with topo = x.topo } ], none
   | "swap" -> let yid = nexti c in let y = get yid in [ id, y; yid, x ], none
   | "intersection_assign" | "meet_assign" ->
-      bin (fun ys xs -> meet_assign (ent nbx) (bot nbx) (ub n nbx) p_meet never ys xs)
+      bin (fun ys xs -> meet_assign (ent nbx) (bot nbx) (ub n nbx) p_meet !hur ys xs)
   | "upper_bound_assign" | "least_upper_bound_assign" ->
-      bin (fun ys xs -> lub (ent nbx) (bot nbx) (ub n nbx) never ys xs)
+      bin (fun ys xs -> lub (ent nbx) (bot nbx) (ub n nbx) !hur ys xs)
   | "concatenate_assign" ->
       let yid = nexti c in let y = get yid in
       if yid = id then raise (Skip "aliased argument");
-      let y' = omega y in
+      (* both operands are omega-reduced first, each in its own space (afterwards their flags are set, so the
+         reductions inside concatenate_ps are the identity) *)
+      let x1 = omega x and y1 = omega y in
       let nd = n + y.dim in let nbz = nat (nd + 1) in
-      let r = pairwise_apply (ent nbz) (bot nbz) (ub nd nbz) never
-                (fun (a : pd) (b : pd) -> ((concatenate (nat n) (fst a) (fst b), None) : pd)) y.s (omega x).s in
-      (* new_x starts as an EMPTY powerset (flag set) and receives the products by push_back *)
-      [ id, { x with dim = nd; s = mk r.seq0 true }; yid, y' ], none
+      let r = concatenate_ps (ent nbz) (bot nbz) (ub nd nbz)
+                (fun (a : pd) (b : pd) -> ((concatenate (nat n) (fst a) (fst b), None) : pd))
+                (ub n nbz) (ub y.dim nbz) !hur y1.s x1.s in
+      [ id, { x with dim = nd; s = r }; yid, y1 ], none
   | "add_constraint" | "refine_with_constraint" ->
       let k = read_con c n in
       if op = "add_constraint" && x.topo = "C" && k.ckd = GT then raise (Skip "strict constraint into a C polyhedron");
@@ -244,9 +248,9 @@ let ref_op c : (int * obj) list * (unit -> (string * verdict) list) =
   | ("pairwise_reduce" | "collapse" | "collapse_all") when List.exists (fun (d : pd) -> snd d = None) x.s.seq0 ->
       raise (Skip "a disjunct has no validated generator hint")
   | "omega_reduce" -> [ id, omega x ], none
-  | "pairwise_reduce" -> [ id, { x with s = pairwise_reduce (ent nbx) (bot nbx) (ub n nbx) (ube n nbx) never x.s } ], none
+  | "pairwise_reduce" -> [ id, { x with s = pairwise_reduce (ent nbx) (bot nbx) (ub n nbx) (ube n nbx) !hur x.s } ], none
   | "collapse" -> let m = nexti c in if m <= 0 then raise (Skip "ill-formed");
-      [ id, { x with s = collapse_n (ent nbx) (bot nbx) (ub n nbx) never (nat m) x.s } ], none
+      [ id, { x with s = collapse_n (ent nbx) (bot nbx) (ub n nbx) !hur (nat m) x.s } ], none
   | "collapse_all" -> [ id, { x with s = collapse_all (ent nbx) (ub n nbx) x.s } ], none
   | "add_non_bottom_disjunct_preserve_reduction" ->
       let p = read_poly c n in
@@ -270,10 +274,10 @@ let ref_query c (ans : string list) : (int * obj) list * (string * verdict) list
   match q with
   | "is_empty" -> [], cmp q (lazy (unions_incl nbx (systems x.s) []))
   | "is_bottom" ->
-      let (s', b) = is_bottom_ps (ent nbx) (bot nbx) (ub n nbx) never x.s in
+      let (s', b) = is_bottom_ps (ent nbx) (bot nbx) (ub n nbx) !hur x.s in
       [ id, { x with s = s' } ], cmp "is_bottom_model" (lazy (Some b)) @ cmp "is_bottom_geometric" (lazy (unions_incl nbx (systems x.s) []))
   | "is_top" ->
-      let (s', b) = is_top_ps (ent nbx) (bot nbx) (ub n nbx) (top nbx) never x.s in
+      let (s', b) = is_top_ps (ent nbx) (bot nbx) (ub n nbx) (top nbx) !hur x.s in
       [ id, { x with s = s' } ], cmp "is_top_model" (lazy (Some b)) @ sound "is_top_sound" (lazy (unions_incl nbx [ empty_sys ] (systems x.s)))
   | "is_universe" ->
       (* transcription of Pointset_Powerset::is_universe including its speculative reduction *)
@@ -302,7 +306,7 @@ let ref_query c (ans : string list) : (int * obj) list * (string * verdict) list
       [ id, omega x; yid, omega y ], sound "equals_sound" (lazy (unions_equiv nbx (systems x.s) (systems y.s)))
   | "strictly_contains" -> let yid, y = arg () in
       if yid = id then raise (Skip "aliased");
-      let ((x', y'), b) = strictly_contains_ps (ent nbx) (bot nbx) (ub n nbx) (p_sc nbx) never x.s y.s in
+      let ((x', y'), b) = strictly_contains_ps (ent nbx) (bot nbx) (ub n nbx) (p_sc nbx) !hur x.s y.s in
       [ id, { x with s = x' }; yid, { y with s = y' } ],
       cmp "strictly_contains_model" (lazy (Some b)) @ sound "strictly_contains_sound" (lazy (unions_incl nbx (systems y.s) (systems x.s)))
   | _ -> raise (Skip ("query " ^ q))
@@ -372,6 +376,9 @@ let () =
     while true do
       let line = input_line ic in
       let toks = split line in
+      let toks, hurried = (match toks with "hurry" :: r -> r, true | _ -> toks, false) in
+      hur := (if hurried then always else never);
+      if hurried then bump "hurry-steps";
       if !case_timeouts >= 3 && not !dead then begin dead := true; bump "case-abandoned-after-3-timeouts" end;
       (match toks with
        | [] -> ()
@@ -463,8 +470,13 @@ let () =
                                   let xs0 = systems x.s and ys0 = systems y.s in
                                   let st_x = List.find (fun s -> s.sid = id) sts in
                                   let rs = List.map (fun d -> sys_of_cons d.dcons) st_x.djs in
+                                  if hurried && Hashtbl.fold (fun _ (o : obj) acc -> acc || List.exists (fun (d : pd) -> snd d = None) o.s.seq0) pool false
+                                  then raise (Skip "hurry-up path needs a validated generator hint for every disjunct");
                                   let vs =
-                                    if x.topo = "NNC" then
+                                    if hurried then
+                                      (* under abandonment: less precise allowed, but every point of x minus y must remain *)
+                                      [ "hurry-superset", of_ob true "under abandonment a point of the exact result is missing" (timed (fun () -> unions_incl nbx xs0 (rs @ ys0)) None) ]
+                                    else if x.topo = "NNC" then
                                       [ "difference_exact", of_ob true "result is not the set difference" (timed (fun () -> is_difference nbx rs xs0 ys0) None) ]
                                     else
                                       [ "difference_covers", of_ob true "result does not contain x minus y" (timed (fun () -> unions_incl nbx xs0 (rs @ ys0)) None);
@@ -475,8 +487,27 @@ let () =
                                   (* adopt the result; the argument (NNC only) has been omega-reduced in place *)
                                   resync st_x; Hashtbl.replace last_line id (try Hashtbl.find raw_lines id with Not_found -> "");
                                   (if x.topo = "NNC" then [ yid, omega y ] else []), (fun () -> [])
-                              | _ -> (match timed (fun () -> Some (ref_op c)) None with
-                                      | Some r -> r | None -> raise (Skip "reference computation exceeded its budget")))) in
+                              | _ ->
+                                  if hurried && Hashtbl.fold (fun _ (o : obj) acc -> acc || List.exists (fun (d : pd) -> snd d = None) o.s.seq0) pool false
+                                  then raise (Skip "hurry-up path needs a validated generator hint for every disjunct");
+                                  (match timed (fun () -> Some (ref_op c)) None with
+                                   | Some r -> r | None -> raise (Skip "reference computation exceeded its budget")))) in
+                    (* under abandonment the result may be less precise but must CONTAIN the exact result (the model run with the
+                       flag never raised) *)
+                    if hurried then begin
+                      hur := never;
+                      (match timed (fun () -> (try Some (fst (ref_op { t = rest })) with Skip _ -> None)) None with
+                       | Some exact_upd ->
+                           List.iter (fun (i, (o : obj)) ->
+                             match List.find_opt (fun st -> st.sid = i) sts with
+                             | Some st when st.sdim = o.dim ->
+                                 let impl = List.map (fun d -> sys_of_cons d.dcons) st.djs in
+                                 report (opname ^ "/hurry-superset") (line ^ " @obj " ^ string_of_int i)
+                                   (of_ob true "under abandonment a point of the exact result is missing" (timed (fun () -> unions_incl (nat (o.dim + 1)) (systems o.s) impl) None))
+                             | _ -> ()) exact_upd
+                       | None -> ());
+                      hur := always
+                    end;
                     List.iter (fun (i, o) -> Hashtbl.replace pool i o) upd;
                     if not !dead then judge_states ~touched:(List.map fst upd) opname line sts;
                     List.iter (fun (k, v) -> report (opname ^ "/" ^ k) line v) (post ())
